@@ -25,6 +25,8 @@ const (
 // Intermediate points (not end nodes) where a concentrated load is applied,
 // also generate intermediate nodes for the load to be included.
 func sliceElement(element *structure.Element, c chan<- *Element) {
+	defer verifSliceGate(element.GetID())()
+
 	if element.IsAxialMember() {
 		c <- sliceAxialElement(element)
 	} else if element.HasLoadsApplied() {
